@@ -18,7 +18,7 @@ type Session struct {
 	mountPoint        string
 	lwt               []byte
 	keepaliveInterval int32
-	Disconnected      bool
+	disconnected      bool
 	topics            [][]byte
 	transport         string
 	mtx               sync.Mutex
@@ -43,6 +43,21 @@ func NewSession(id, mountpoint, transport string, conn transport.TimeoutReadWrit
 		transport:  transport,
 	}
 	return s, s.processConnect(connect)
+}
+
+// SetDisconnected records that the client sent DISCONNECT (no will must be published).
+func (s *Session) SetDisconnected() {
+	s.mtx.Lock()
+	defer s.mtx.Unlock()
+	s.disconnected = true
+}
+
+// Disconnected tells whether the client sent DISCONNECT. The flag is written by the
+// connection's serve loop and read by whoever tears the session down.
+func (s *Session) Disconnected() bool {
+	s.mtx.Lock()
+	defer s.mtx.Unlock()
+	return s.disconnected
 }
 
 func (s *Session) ID() string {
